@@ -6,22 +6,31 @@ package main
 // the same operation sequences as a reference two-map specification kept by the
 // harness (monitor), and the sequences together with the observed results are
 // written as cases for the Coq models of KV/Model.v (correspondence).
+//
+// Sequences are run by a pool of workers (each with its own backends and Bolt files) and
+// their outcomes are merged in generation order, so a run is reproducible.
+// Dimensions beyond "mutation, then the whole read suite" (seeded/LESSONS.md; counters plan:*,
+// mode:*, backend:* in the evidence): judgement only at the end of a write-only stretch, each
+// read API as the first call after a change, the read suite twice, bucket handles held for a
+// session (from CreateBucket's result or Bucket) and mixed with fresh ones, iteration cut short
+// after j elements, deleting the current key while iterating (as chain/migrate.go does),
+// close-and-reopen of the Bolt file, a CacheDB stacked on a CacheDB, and chain-store sized
+// keys / values (c17extreme.go).
 
 import (
-	"bytes"
 	"encoding/json"
 	"fmt"
 	"os"
 	"path/filepath"
+	"runtime"
 	"sort"
 	"strings"
+	"sync"
 
 	"go.etcd.io/bbolt"
 	coreutils "go.sia.tech/coreutils"
 	"go.sia.tech/coreutils/chain"
 	"verif/harness/internal/hx"
-	"verif/harness/internal/out"
-	"verif/harness/internal/rng"
 )
 
 func main() { hx.Main("C17", runC17) }
@@ -29,7 +38,7 @@ func main() { hx.Main("C17", runC17) }
 type Ctx = hx.Ctx
 
 type kvOp struct {
-	Kind string `json:"op"` // create put del get iter has flush cancel
+	Kind string `json:"op"` // create put del get iter has flush cancel | iterbrk (K = elements taken before the break) iterdel reopen
 	B    int    `json:"b"`
 	K    int    `json:"k,omitempty"`
 	V    int    `json:"v,omitempty"`
@@ -57,8 +66,12 @@ func (o kvOp) coq() string {
 
 func (o kvOp) String() string {
 	switch o.Kind {
-	case "flush", "cancel":
+	case "flush", "cancel", "reopen":
 		return o.Kind
+	case "iterbrk":
+		return fmt.Sprintf("iter(%d) cut after %d", o.B, o.K)
+	case "iterdel":
+		return fmt.Sprintf("iter(%d) deleting each key it yields", o.B)
 	case "create", "iter", "has":
 		return fmt.Sprintf("%s(%d)", o.Kind, o.B)
 	case "put":
@@ -103,6 +116,7 @@ func (r kvRes) coq() string {
 
 func bname(b int) []byte { return []byte{'B', byte('0' + b)} }
 func kname(k int) []byte { return []byte{'k', byte('0' + k)} }
+
 // vname renders a value; value 0 is the empty (zero-length, non-nil) byte string, which the chain
 // store does write (an expiration list whose last id was removed).
 func vname(v int) []byte {
@@ -127,25 +141,77 @@ func decodeV(v []byte) string {
 	return fmt.Sprintf("?%x", v)
 }
 
-func kvApply(db chain.DB, o kvOp) (res kvRes) {
+type runMode int
+
+const (
+	modeFresh runMode = iota // every operation fetches its bucket by name
+	modeHeld                 // one handle per bucket and session: CreateBucket's result, else the first Bucket()
+	modeMixed                // held and fresh handles alternate
+)
+
+var modeNames = []string{"fresh", "held", "mixed"}
+
+// kvSess is one opened backend.
+type kvSess struct {
+	db     chain.DB
+	reopen func() // close and reopen the file (nil: the backend lives in memory, reopening = losing the session)
+	done   func()
+}
+
+type runState struct {
+	mode    runMode
+	handles map[int]chain.DBBucket
+}
+
+func (st *runState) bucket(db chain.DB, b, i int) chain.DBBucket {
+	if st.mode == modeHeld || (st.mode == modeMixed && i%2 == 1) {
+		if h, ok := st.handles[b]; ok {
+			return h
+		}
+	}
+	h := db.Bucket(bname(b))
+	if h != nil && st.mode != modeFresh {
+		if _, ok := st.handles[b]; !ok {
+			st.handles[b] = h
+		}
+	}
+	return h
+}
+
+func kvApply(s *kvSess, st *runState, o kvOp, i int) (res kvRes) {
 	defer func() {
 		if r := recover(); r != nil {
 			res = kvRes(fmt.Sprintf("panic:%v", r))
 		}
 	}()
+	db := s.db
 	switch o.Kind {
 	case "create":
-		if _, err := db.CreateBucket(bname(o.B)); err != nil {
+		h, err := db.CreateBucket(bname(o.B))
+		if err != nil {
 			return "err"
+		}
+		if st.mode != modeFresh && h != nil {
+			st.handles[o.B] = h // the handle the call returned is the one the session goes on using
 		}
 		return "ok"
 	case "flush":
+		st.handles = map[int]chain.DBBucket{} // a handle lives as long as its session
 		if err := db.Flush(); err != nil {
 			return "flusherr"
 		}
 		return "unit"
 	case "cancel":
+		st.handles = map[int]chain.DBBucket{}
 		db.Cancel()
+		return "unit"
+	case "reopen":
+		st.handles = map[int]chain.DBBucket{}
+		if s.reopen != nil {
+			s.reopen()
+		} else {
+			db.Cancel()
+		}
 		return "unit"
 	case "has":
 		if db.Bucket(bname(o.B)) == nil {
@@ -153,7 +219,7 @@ func kvApply(db chain.DB, o kvOp) (res kvRes) {
 		}
 		return "true"
 	}
-	bk := db.Bucket(bname(o.B))
+	bk := st.bucket(db, o.B, i)
 	if bk == nil {
 		return "nobucket"
 	}
@@ -174,15 +240,57 @@ func kvApply(db chain.DB, o kvOp) (res kvRes) {
 			return "none"
 		}
 		return kvRes("val:" + decodeV(v))
-	case "iter":
+	case "iter", "iterbrk", "iterdel":
 		var kvs []string
+		n := 0
 		for k, v := range bk.Iter() {
+			if o.Kind == "iterbrk" && n == o.K {
+				break // the consumer has seen enough
+			}
+			n++
 			kvs = append(kvs, decodeK(k)+"="+decodeV(v))
+			if o.Kind == "iterdel" { // chain/migrate.go: for id := range bucket.Iter() { bucket.delete(id) }
+				if err := st.bucket(db, o.B, i).Delete(append([]byte(nil), k...)); err != nil {
+					return "delerr"
+				}
+			}
 		}
 		sort.Strings(kvs) // Go map order is not an observable
 		return kvRes("list:" + strings.Join(kvs, ","))
 	}
 	return "badop"
+}
+
+// agree: does the observed result meet the specification's? Equal, except for a cut-short
+// iteration: any j distinct pairs of the bucket (j = the cut, or everything if there is less).
+func agree(o kvOp, got, want kvRes) bool {
+	if o.Kind != "iterbrk" {
+		return got == want
+	}
+	if !strings.HasPrefix(string(got), "list:") || !strings.HasPrefix(string(want), "list:") {
+		return got == want
+	}
+	all := map[string]bool{}
+	nall := 0
+	for _, p := range strings.Split(string(want)[5:], ",") {
+		if p != "" {
+			all[p] = true
+			nall++
+		}
+	}
+	seen := map[string]bool{}
+	ngot := 0
+	for _, p := range strings.Split(string(got)[5:], ",") {
+		if p == "" {
+			continue
+		}
+		if !all[p] || seen[p] {
+			return false
+		}
+		seen[p] = true
+		ngot++
+	}
+	return ngot == min(o.K, nall)
 }
 
 // refDB is the specification: a committed image and the current session view.
@@ -210,7 +318,7 @@ func (r *refDB) apply(o kvOp) kvRes {
 	case "flush":
 		r.com = cloneKV(r.cur)
 		return "unit"
-	case "cancel":
+	case "cancel", "reopen": // reopening the file shows exactly what was flushed
 		r.cur = cloneKV(r.com)
 		return "unit"
 	case "has":
@@ -235,7 +343,10 @@ func (r *refDB) apply(o kvOp) kvRes {
 			return kvRes(fmt.Sprintf("val:%d", v))
 		}
 		return "none"
-	case "iter":
+	case "iter", "iterbrk", "iterdel": // iterbrk is judged by agree(); iterdel visits everything and leaves nothing
+		if o.Kind == "iterdel" {
+			defer func() { r.cur[o.B] = map[int]int{} }()
+		}
 		var kvs []string
 		for k, v := range bk {
 			kvs = append(kvs, fmt.Sprintf("%d=%d", k, v))
@@ -249,40 +360,52 @@ func (r *refDB) apply(o kvOp) kvRes {
 type kvBackend struct {
 	name string
 	id   int // backend number in the Coq model
-	open func() (chain.DB, func())
+	bolt bool
+	open func() *kvSess
 }
 
+// c17Backends: the four backends of the property and a CacheDB stacked on a CacheDB
+// ("the write-caching wrapper (over any backend)"). dir must be private to the caller.
 func c17Backends(dir string) []kvBackend {
+	os.MkdirAll(dir, 0o755)
 	n := 0
-	bolt := func() (chain.DB, func()) {
-		n++
-		p := filepath.Join(dir, fmt.Sprintf("bolt-%d.db", n))
-		os.Remove(p)
-		bdb, err := bbolt.Open(p, 0o600, &bbolt.Options{NoSync: true, NoFreelistSync: true})
-		if err != nil {
-			panic(err)
+	bolt := func(wrap func(chain.DB) chain.DB) func() *kvSess {
+		return func() *kvSess {
+			n++
+			p := filepath.Join(dir, fmt.Sprintf("bolt-%d.db", n))
+			os.Remove(p)
+			opts := &bbolt.Options{NoSync: true, NoFreelistSync: true}
+			bdb, err := bbolt.Open(p, 0o600, opts)
+			if err != nil {
+				panic(err)
+			}
+			raw := coreutils.NewBoltChainDB(bdb)
+			s := &kvSess{db: wrap(raw)}
+			s.reopen = func() {
+				s.db.Cancel() // what was not flushed is not to survive; Close would flush it
+				raw.Close()
+				bdb, err = bbolt.Open(p, 0o600, opts)
+				if err != nil {
+					panic(err)
+				}
+				raw = coreutils.NewBoltChainDB(bdb)
+				s.db = wrap(raw)
+			}
+			s.done = func() { s.db.Cancel(); bdb.Close(); os.Remove(p) }
+			return s
 		}
-		db := coreutils.NewBoltChainDB(bdb)
-		return db, func() { db.Cancel(); bdb.Close(); os.Remove(p) }
 	}
+	mem := func(mk func() chain.DB) func() *kvSess {
+		return func() *kvSess { return &kvSess{db: mk(), done: func() {}} }
+	}
+	id := func(db chain.DB) chain.DB { return db }
 	return []kvBackend{
-		{"MemDB", 0, func() (chain.DB, func()) { return chain.NewMemDB(), func() {} }},
-		{"CacheDB(MemDB)", 1, func() (chain.DB, func()) { return chain.NewCacheDB(chain.NewMemDB()), func() {} }},
-		{"BoltChainDB", 2, bolt},
-		{"CacheDB(Bolt)", 3, func() (chain.DB, func()) {
-			db, cl := bolt()
-			return chain.NewCacheDB(db), cl
-		}},
+		{"MemDB", 0, false, mem(func() chain.DB { return chain.NewMemDB() })},
+		{"CacheDB(MemDB)", 1, false, mem(func() chain.DB { return chain.NewCacheDB(chain.NewMemDB()) })},
+		{"BoltChainDB", 2, true, bolt(id)},
+		{"CacheDB(Bolt)", 3, true, bolt(chain.NewCacheDB)},
+		{"CacheDB(CacheDB(MemDB))", 4, false, mem(func() chain.DB { return chain.NewCacheDB(chain.NewCacheDB(chain.NewMemDB())) })},
 	}
-}
-
-// a reusable bolt handle: reopening a file per sequence would dominate the run
-type kvSession struct {
-	be   kvBackend
-	db   chain.DB
-	done func()
-	// for bolt-backed sessions we reset by deleting all buckets instead of reopening
-	raw *bbolt.DB
 }
 
 func kvReads() []kvOp {
@@ -314,17 +437,18 @@ func kvMutations() []kvOp {
 
 // runKV runs ops on a fresh backend and on the reference; returns the observed
 // results and the index of the first disagreement (-1 if none).
-func runKV(be kvBackend, ops []kvOp) (obs []kvRes, want []kvRes, bad int) {
-	db, done := be.open()
-	defer done()
+func runKV(be kvBackend, ops []kvOp, mode runMode) (obs []kvRes, want []kvRes, bad int) {
+	s := be.open()
+	defer func() { s.done() }()
+	st := &runState{mode: mode, handles: map[int]chain.DBBucket{}}
 	ref := newRef()
 	bad = -1
 	for i, o := range ops {
-		g := kvApply(db, o)
+		g := kvApply(s, st, o, i)
 		w := ref.apply(o)
 		obs = append(obs, g)
 		want = append(want, w)
-		if g != w && bad < 0 {
+		if !agree(o, g, w) && bad < 0 {
 			bad = i
 		}
 	}
@@ -342,17 +466,17 @@ func interleave(ms []kvOp) []kvOp {
 	return ops
 }
 
-func shrinkKV(be kvBackend, ops []kvOp) []kvOp {
-	fails := func(o []kvOp) bool { _, _, bad := runKV(be, o); return bad >= 0 }
+func shrinkKV(be kvBackend, ops []kvOp, mode runMode) []kvOp {
+	fails := func(o []kvOp) bool { _, _, bad := runKV(be, o, mode); return bad >= 0 }
 	// keep only up to the first failing op
-	_, _, bad := runKV(be, ops)
+	_, _, bad := runKV(be, ops, mode)
 	ops = append([]kvOp(nil), ops[:bad+1]...)
 	for changed := true; changed; {
 		changed = false
 		for i := 0; i < len(ops); i++ {
 			c := append(append([]kvOp(nil), ops[:i]...), ops[i+1:]...)
 			if len(c) > 0 && fails(c) {
-				_, _, b := runKV(be, c)
+				_, _, b := runKV(be, c, mode)
 				ops = c[:b+1]
 				changed = true
 				break
@@ -362,10 +486,17 @@ func shrinkKV(be kvBackend, ops []kvOp) []kvOp {
 	return ops
 }
 
-func kvFailKind(be kvBackend, ops []kvOp, bad int, got, want kvRes) string {
+// kvFailKind names a failure by the structure of the shrunk sequence (never by a message of the
+// code under test; "panic" is the harness's own marker for a recovered panic).
+func kvFailKind(be kvBackend, ops []kvOp, bad int, got, want kvRes, mode runMode) string {
 	o := ops[bad]
 	if strings.HasPrefix(string(got), "panic") {
 		return "kv-panic"
+	}
+	if mode != modeFresh {
+		if _, _, b := runKV(be, ops, modeFresh); b < 0 {
+			return "kv-held-handle-differs" // the same calls through freshly fetched handles are right
+		}
 	}
 	unflushedDel, unflushedPut, doubleCreate := false, false, false
 	created := map[int]int{}
@@ -380,12 +511,16 @@ func kvFailKind(be kvBackend, ops []kvOp, bad int, got, want kvRes) string {
 			if created[p.B] > 1 {
 				doubleCreate = true
 			}
-		case "flush", "cancel":
+		case "flush", "cancel", "reopen":
 			unflushedDel, unflushedPut, doubleCreate = false, false, false
 			created = map[int]int{}
 		}
 	}
 	switch {
+	case o.Kind == "iterbrk":
+		return "kv-iter-cut-short-misbehaves"
+	case o.Kind == "iterdel":
+		return "kv-iter-delete-misses-keys"
 	case o.Kind == "create" && got == "ok" && want == "err":
 		return "kv-double-create-accepted"
 	case doubleCreate:
@@ -394,6 +529,11 @@ func kvFailKind(be kvBackend, ops []kvOp, bad int, got, want kvRes) string {
 		return "kv-stale-get-after-delete"
 	case o.Kind == "iter" && unflushedPut:
 		return "kv-iter-misses-unflushed"
+	}
+	for _, p := range ops[:bad] {
+		if p.Kind == "reopen" {
+			return "kv-reopen-differs"
+		}
 	}
 	return "kv-" + o.Kind + "-differs"
 }
@@ -406,109 +546,224 @@ func opsStrings(ops []kvOp) []string {
 	return s
 }
 
+func coqable(ops []kvOp) bool {
+	for _, o := range ops {
+		switch o.Kind {
+		case "iterbrk", "iterdel", "reopen":
+			return false // not operations of KV/Model.v: monitor only
+		}
+	}
+	return true
+}
+
+// ---- jobs, workers, ordered merge ----
+
+type kvJob struct {
+	seq    int
+	ops    []kvOp
+	toCoq  bool
+	mode   runMode
+	tag    string // plan:<tag> counter
+	noBolt bool   // Bolt transactions are ~50x slower
+	only   int    // >= 0: only the backend with this id
+}
+
+type kvFailure struct {
+	key, kind, detail string
+	replay            any
+}
+
+type kvOutcome struct {
+	seq   int
+	job   kvJob
+	evals []string // canonical renderings, one per backend run
+	names []string
+	fails []kvFailure
+	cases []string
+}
+
+func nontrivialKV(ops []kvOp) bool {
+	w, fc := false, false
+	for _, o := range ops {
+		switch o.Kind {
+		case "put", "del", "create", "iterdel":
+			w = true
+		case "flush", "cancel", "reopen":
+			if w {
+				fc = true
+			}
+		case "get", "iter", "has", "iterbrk":
+			if fc {
+				return true
+			}
+		}
+	}
+	return false
+}
+
+func doJob(bes []kvBackend, j kvJob) kvOutcome {
+	out := kvOutcome{seq: j.seq, job: j}
+	for _, be := range bes {
+		if (j.noBolt && be.bolt) || (j.only >= 0 && be.id != j.only) {
+			continue
+		}
+		obs, _, bad := runKV(be, j.ops, j.mode)
+		out.evals = append(out.evals, be.name+modeNames[j.mode]+fmt.Sprint(opsStrings(j.ops)))
+		out.names = append(out.names, be.name)
+		if bad >= 0 {
+			small := shrinkKV(be, j.ops, j.mode)
+			o2, w2, b2 := runKV(be, small, j.mode)
+			kind := kvFailKind(be, small, b2, o2[b2], w2[b2], j.mode)
+			how := ""
+			if j.mode != modeFresh {
+				how = " (bucket handles " + modeNames[j.mode] + " within the session)"
+			}
+			out.fails = append(out.fails, kvFailure{kind + "/" + be.name, kind,
+				fmt.Sprintf("%s%s: after %v the operation %s returned %q, the two-map specification returns %q", be.name, how, opsStrings(small[:b2]), small[b2], o2[b2], w2[b2]),
+				map[string]any{"backend": be.name, "mode": modeNames[j.mode], "ops": small, "observed": o2, "expected": w2}})
+		}
+		if j.toCoq && coqable(j.ops) {
+			parts := make([]string, len(j.ops))
+			for i, o := range j.ops {
+				parts[i] = "(" + o.coq() + ", " + obs[i].coq() + ")"
+			}
+			out.cases = append(out.cases, fmt.Sprintf("mk_case %d [%s]", be.id, strings.Join(parts, "; ")))
+		}
+	}
+	return out
+}
+
 func runC17(c *Ctx) {
 	res := c.Res
-	res.Rule = "operation sequences over 2 buckets x 2 keys x 2 non-empty values on MemDB, CacheDB(MemDB), BoltChainDB, CacheDB(Bolt); exhaustive mutation sequences (16 mutations, full read suite after each) up to the stated length plus random longer sequences with explicit reads; non-trivial := the sequence contains a flush or cancel with at least one write before it and a read after it; distinct by sequence+backend"
-	bes := c17Backends(res.Dir())
+	res.Rule = "operation sequences over 2 buckets x 2 keys x 3 values (one empty) on MemDB, CacheDB(MemDB), BoltChainDB, CacheDB(Bolt), CacheDB(CacheDB(MemDB)); exhaustive mutation sequences (full read suite after each mutation) up to the stated length, the same sequences judged only at the end (read suite twice), with each read as the first call after the last mutation, and with bucket handles held / mixed within a session; random longer sequences with explicit reads, cut-short iterations, delete-while-iterating over flushed keys and close-and-reopen; chain-store sized keys and values; non-trivial := the sequence contains a flush, cancel or reopen with at least one write before it and a read after it; distinct by sequence+backend+handle mode"
 	muts := kvMutations()
 	var cases []string
 	reported := map[string]bool{}
 
-	nontrivial := func(ops []kvOp) bool {
-		w, fc := false, false
-		for _, o := range ops {
-			switch o.Kind {
-			case "put", "del", "create":
-				w = true
-			case "flush", "cancel":
-				if w {
-					fc = true
-				}
-			case "get", "iter", "has":
-				if fc {
-					return true
-				}
-			}
+	merge := func(o kvOutcome) {
+		for i, canon := range o.evals {
+			res.Eval(canon, nontrivialKV(o.job.ops))
+			res.CountN("ops", len(o.job.ops))
+			res.Count("backend:" + o.names[i])
 		}
-		return false
-	}
-
-	check := func(be kvBackend, ops []kvOp, toCoq bool) {
-		obs, _, bad := runKV(be, ops)
-		canon := be.name + fmt.Sprint(opsStrings(ops))
-		res.Eval(canon, nontrivial(ops))
-		res.CountN("ops", len(ops))
-		res.Count("backend:" + be.name)
-		if bad >= 0 {
-			small := shrinkKV(be, ops)
-			o2, w2, b2 := runKV(be, small)
-			kind := kvFailKind(be, small, b2, o2[b2], w2[b2])
-			key := kind + "/" + be.name
-			if !reported[key] || len(res.Failures) < 12 {
-				reported[key] = true
-				res.Fail(kind, fmt.Sprintf("%s: after %v the operation %s returned %q, the two-map specification returns %q", be.name, opsStrings(small[:b2]), small[b2], o2[b2], w2[b2]),
-					map[string]any{"backend": be.name, "ops": small, "observed": o2, "expected": w2})
+		res.Count("plan:" + o.job.tag)
+		res.Count("mode:" + modeNames[o.job.mode])
+		for _, f := range o.fails {
+			if !reported[f.key] || len(res.Failures) < 12 {
+				reported[f.key] = true
+				res.Fail(f.kind, f.detail, f.replay)
 			} else {
-				res.Count("fail:" + kind)
+				res.Count("fail:" + f.kind)
 			}
 		}
-		if toCoq {
-			parts := make([]string, len(ops))
-			for i, o := range ops {
-				parts[i] = "(" + o.coq() + ", " + obs[i].coq() + ")"
-			}
-			cases = append(cases, fmt.Sprintf("mk_case %d [%s]", be.id, strings.Join(parts, "; ")))
-		}
+		cases = append(cases, o.cases...)
 	}
 
 	if c.Replay != "" {
 		var rp struct {
 			Replay struct {
 				Backend string `json:"backend"`
+				Mode    string `json:"mode"`
 				Ops     []kvOp `json:"ops"`
 			} `json:"replay"`
 		}
 		b, _ := os.ReadFile(c.Replay)
 		json.Unmarshal(b, &rp)
+		bes := c17Backends(filepath.Join(res.Dir(), "w0"))
 		for _, be := range bes {
 			if be.name == rp.Replay.Backend {
-				check(be, rp.Replay.Ops, true)
+				mode := modeFresh
+				for i, n := range modeNames {
+					if n == rp.Replay.Mode {
+						mode = runMode(i)
+					}
+				}
+				merge(doJob(bes, kvJob{ops: rp.Replay.Ops, toCoq: true, mode: mode, tag: "replay", only: be.id}))
 			}
 		}
 		res.WriteCases("Run.Run_C17", cases)
 		return
 	}
 
+	// workers: each owns its backends (and Bolt files); outcomes are merged in generation order
+	W := min(8, max(2, runtime.NumCPU()/2))
+	jobs := make(chan kvJob, 1024)
+	outs := make(chan kvOutcome, 1024)
+	var wg sync.WaitGroup
+	for w := 0; w < W; w++ {
+		wg.Add(1)
+		go func(w int) {
+			defer wg.Done()
+			bes := c17Backends(filepath.Join(res.Dir(), fmt.Sprintf("w%d", w)))
+			for j := range jobs {
+				outs <- doJob(bes, j)
+			}
+		}(w)
+	}
+	merged := make(chan struct{})
+	go func() {
+		pending := map[int]kvOutcome{}
+		next := 0
+		for o := range outs {
+			pending[o.seq] = o
+			for {
+				p, ok := pending[next]
+				if !ok {
+					break
+				}
+				delete(pending, next)
+				merge(p)
+				next++
+			}
+		}
+		close(merged)
+	}()
+	seq := 0
+	submit := func(ops []kvOp, toCoq bool, mode runMode, tag string, noBolt bool) {
+		jobs <- kvJob{seq: seq, ops: append([]kvOp(nil), ops...), toCoq: toCoq, mode: mode, tag: tag, noBolt: noBolt, only: -1}
+		seq++
+	}
+
 	// corpus first
 	for _, ops := range c17Corpus() {
-		for _, be := range bes {
-			check(be, ops, true)
-		}
+		submit(ops, true, modeFresh, "corpus", false)
+		submit(ops, false, modeHeld, "corpus", false)
 	}
 
 	// exhaustive mutation sequences, up to renaming: the backends are symmetric in bucket, key and value
 	// names, so only sequences that introduce buckets, keys and values in increasing order are run
 	goLen, coqLen := c.Scale(5, 6), c.Scale(2, 3)
+	reads := kvReads()
+	twice := append(append([]kvOp(nil), reads...), reads...)
 	var rec func(prefix []kvOp, depth, nb, nk, nv int)
 	rec = func(prefix []kvOp, depth, nb, nk, nv int) {
-		run := len(prefix) > 0
-		if len(prefix) == goLen && !c.Thorough {
-			// quick tier: at the last level only sequences that cross a session boundary
-			// (a flush or a cancel) are run; the thorough tier runs all of them
-			run = false
-			for _, m := range prefix {
-				if m.Kind == "flush" || m.Kind == "cancel" {
-					run = true
-				}
+		n := len(prefix)
+		crosses := false // the sequence crosses a session boundary
+		for _, m := range prefix {
+			if m.Kind == "flush" || m.Kind == "cancel" {
+				crosses = true
 			}
 		}
-		if run {
-			ops := interleave(prefix)
-			for _, be := range bes {
-				if strings.Contains(be.name, "Bolt") && len(prefix) > goLen-1 {
-					continue // bolt transactions are ~50x slower; one level less
+		// quick tier: at the last level only sequences that cross a session boundary
+		// (a flush or a cancel) are run; the thorough tier runs all of them
+		if n > 0 && (n < goLen || c.Thorough || crosses) {
+			noBolt := n > goLen-1 // Bolt: one level less
+			submit(interleave(prefix), n <= coqLen, modeFresh, "reads-after-every-mutation", noBolt)
+			// judged only at the end: no read between the mutations, then the read suite twice
+			// (a read must not change what the next read sees)
+			if n >= 2 {
+				submit(append(append([]kvOp(nil), prefix...), twice...), false, modeFresh, "judged-at-the-end-only", noBolt || n > goLen-2)
+			}
+			// handles held for the session / mixed with fresh ones
+			if n >= 2 && n < goLen {
+				submit(interleave(prefix), false, modeHeld, "held-handles", n > goLen-2)
+				submit(interleave(prefix), false, modeMixed, "mixed-handles", true)
+			}
+			// every read API as the first call after the last mutation
+			if n >= 2 && n <= 3 {
+				for _, r := range reads[1:] { // the suite itself starts with reads[0]
+					submit(append(append(append([]kvOp(nil), prefix...), r), reads...), false, modeFresh, "first-read-after-the-change", n > 2)
 				}
-				check(be, ops, len(prefix) <= coqLen)
 			}
 		}
 		if depth == 0 {
@@ -533,17 +788,38 @@ func runC17(c *Ctx) {
 	}
 	rec(nil, goLen, 0, 0, 0)
 	res.Exhaustive = true
-	res.Explored = map[string]any{"exhaustive_up_to_renaming_of_buckets_keys_values": true, "exhaustive_last_level_only_with_flush_or_cancel_in_quick": !c.Thorough, "exhaustive_len_go": goLen, "exhaustive_len_go_bolt": goLen - 1, "exhaustive_len_coq": coqLen, "alphabet": len(muts)}
+	res.Explored = map[string]any{"exhaustive_up_to_renaming_of_buckets_keys_values": true, "exhaustive_last_level_only_with_flush_or_cancel_in_quick": !c.Thorough, "exhaustive_len_go": goLen, "exhaustive_len_go_bolt": goLen - 1, "exhaustive_len_coq": coqLen, "alphabet": len(muts), "workers": W,
+		"exhaustive_len_judged_at_the_end_only": goLen, "exhaustive_len_held_handles": goLen - 1, "exhaustive_len_first_read": 3}
 
-	// random longer sequences with explicit reads
-	all := append(append([]kvOp(nil), muts...), kvReads()...)
+	// directed: what the new operations are for
+	for _, ops := range c17Directed() {
+		for m := modeFresh; m <= modeMixed; m++ {
+			submit(ops, false, m, "directed", false)
+		}
+	}
+
+	// random longer sequences with explicit reads; a third of them also use the cut-short iteration,
+	// delete-while-iterating (over flushed keys, as the chain store does) and close-and-reopen
+	all := append(append([]kvOp(nil), muts...), reads...)
 	nrand := c.Scale(400, 6000)
 	for i := 0; i < nrand; i++ {
 		r := c.R.Fork()
 		n := 5 + r.Intn(30)
-		ops := make([]kvOp, n)
-		for j := range ops {
-			ops[j] = all[r.Intn(len(all))]
+		var ops []kvOp
+		for j := 0; j < n; j++ {
+			o := all[r.Intn(len(all))]
+			if i%3 == 2 && r.Chance(1, 6) {
+				switch r.Intn(4) {
+				case 0, 1:
+					o = kvOp{Kind: "iterbrk", B: r.Intn(2), K: r.Intn(3)}
+				case 2:
+					ops = append(ops, kvOp{Kind: "flush"}) // the keys it walks over are flushed ones
+					o = kvOp{Kind: "iterdel", B: r.Intn(2)}
+				default:
+					o = kvOp{Kind: "reopen"}
+				}
+			}
+			ops = append(ops, o)
 		}
 		// mostly-valid stream: 80% of the sequences create their buckets first
 		if r.Chance(4, 5) {
@@ -552,18 +828,59 @@ func runC17(c *Ctx) {
 				ops[1] = kvOp{Kind: "create", B: 1}
 			}
 		}
-		for _, be := range bes {
-			check(be, ops, true)
-		}
+		submit(ops, true, runMode(i%3), "random", false)
 		if i < 2 {
 			res.Sample(map[string]any{"ops": opsStrings(ops)})
 		}
 	}
+	close(jobs)
+	wg.Wait()
+	close(outs)
+	<-merged
+
+	extremesC17(c)
 	chainReplayC17(c)
 	res.WriteCases("Run.Run_C17", cases)
-	_ = bytes.Equal
-	_ = rng.New
-	_ = out.N
+}
+
+// c17Directed: short plans around the operations that are not in the exhaustive alphabet.
+func c17Directed() [][]kvOp {
+	p := func(b, k, v int) kvOp { return kvOp{Kind: "put", B: b, K: k, V: v} }
+	d := func(b, k int) kvOp { return kvOp{Kind: "del", B: b, K: k} }
+	cr := func(b int) kvOp { return kvOp{Kind: "create", B: b} }
+	g := func(b, k int) kvOp { return kvOp{Kind: "get", B: b, K: k} }
+	it := func(b int) kvOp { return kvOp{Kind: "iter", B: b} }
+	fl, ca, re := kvOp{Kind: "flush"}, kvOp{Kind: "cancel"}, kvOp{Kind: "reopen"}
+	brk := func(b, j int) kvOp { return kvOp{Kind: "iterbrk", B: b, K: j} }
+	idel := func(b int) kvOp { return kvOp{Kind: "iterdel", B: b} }
+	var hs [][]kvOp
+	// iteration cut after 0, 1, 2 elements over flushed, unflushed and mixed content; everything still works afterwards
+	for j := 0; j <= 2; j++ {
+		hs = append(hs,
+			[]kvOp{cr(0), p(0, 0, 1), p(0, 1, 2), brk(0, j), it(0), g(0, 0), fl, brk(0, j), it(0)},
+			[]kvOp{cr(0), p(0, 0, 1), fl, p(0, 1, 2), brk(0, j), it(0), d(0, 0), brk(0, j), it(0), ca, brk(0, j), it(0)},
+			[]kvOp{cr(0), brk(0, j), it(0), fl, brk(0, j)},
+			[]kvOp{cr(0), p(0, 0, 1), p(0, 1, 2), fl, p(0, 0, 2), brk(0, j), brk(0, j), it(0), fl, it(0)},
+		)
+	}
+	// delete-while-iterating over flushed keys (chain/migrate.go), then every way of ending the session
+	for _, end := range [][]kvOp{{fl}, {ca}, {re}, {p(0, 0, 2), fl}, {fl, re}} {
+		hs = append(hs,
+			append([]kvOp{cr(0), p(0, 0, 1), p(0, 1, 2), fl, idel(0), it(0), g(0, 0)}, append(end, it(0), g(0, 0), g(0, 1))...),
+			append([]kvOp{cr(0), cr(1), p(0, 0, 1), p(1, 0, 2), p(0, 1, 0), fl, idel(0), it(0), it(1)}, append(end, it(0), it(1))...),
+			append([]kvOp{cr(0), p(0, 0, 1), fl, idel(0), idel(0), p(0, 1, 1), it(0)}, append(end, it(0))...),
+		)
+	}
+	// close and reopen: exactly the flushed data
+	hs = append(hs,
+		[]kvOp{cr(0), p(0, 0, 1), fl, re, it(0), g(0, 0), p(0, 1, 2), re, it(0), g(0, 1)},
+		[]kvOp{cr(0), p(0, 0, 1), re, kvOp{Kind: "has", B: 0}, cr(0), kvOp{Kind: "has", B: 0}, fl, re, kvOp{Kind: "has", B: 0}, it(0)},
+		[]kvOp{cr(0), p(0, 0, 1), fl, d(0, 0), fl, re, g(0, 0), it(0)},
+		[]kvOp{cr(0), p(0, 0, 1), fl, d(0, 0), re, g(0, 0), it(0)},
+		[]kvOp{cr(0), p(0, 0, 1), fl, p(0, 0, 0), fl, re, g(0, 0), d(0, 0), fl, re, g(0, 0)},
+		[]kvOp{cr(0), fl, re, cr(1), p(1, 0, 1), p(0, 0, 2), fl, re, it(0), it(1), re, re, it(1)},
+	)
+	return hs
 }
 
 // c17Corpus holds minimised earlier failures; they run first.
